@@ -310,8 +310,12 @@ fn flush_counts() {
 #[derive(Clone, Debug)]
 enum Ev {
     Call(Variant, Vec<f64>, Vec<usize>),
-    /// time steps with the heat-bath option set to the flag
-    Step(bool),
+    /// `set_do_heatbath`
+    Hb(bool),
+    /// `set_do_loop_updates`
+    Loops(bool),
+    /// time steps with the options as they are
+    Step,
     /// `q.clone()`; the flag says whether the sequence continues on the clone
     CloneQ(bool),
 }
@@ -319,25 +323,56 @@ enum Ev {
 fn ev_tok(e: &Ev) -> String {
     match e {
         Ev::Call(v, m, vs) => format!("{}:{}:{}", v.name(), rats(m), list(vs)),
-        Ev::Step(hb) => format!("step:{}", *hb as u8),
+        Ev::Hb(b) => format!("hb:{}", *b as u8),
+        Ev::Loops(b) => format!("loops:{}", *b as u8),
+        Ev::Step => "step".to_string(),
         Ev::CloneQ(u) => format!("clone:{}", *u as u8),
     }
 }
 
-/// `<#bonds>:<offset>:<has_cluster_edges>:<breaks_ising_symmetry>:<non_const_diags>:<bond_weights present>`,
-/// the private fields read through the serde snapshot
-fn snap(q: &Q) -> String {
+/// The private fields, read through the serde snapshot.
+#[derive(Clone, PartialEq, Debug)]
+struct Fields {
+    nb: usize,
+    offset: f64,
+    hce: bool,
+    bis: bool,
+    ncd: Vec<u64>,
+    /// `bond_weights`: None, or the rows (bond, max weight, cumulative)
+    bw: Option<Vec<(u64, f64, f64)>>,
+    hb: bool,
+    loops: bool,
+}
+impl Fields {
+    /// `<#bonds>:<offset>:<has_cluster_edges>:<breaks_ising_symmetry>:<non_const_diags>:<bond_weights>:<do_heatbath>:<do_loop_updates>`
+    fn tok(&self) -> String {
+        let bw = match &self.bw {
+            None => "none".to_string(),
+            Some(t) => rats(&t.iter().map(|r| r.1).collect::<Vec<f64>>()),
+        };
+        format!("{}:{}:{}:{}:{}:{}:{}:{}", self.nb, rat(self.offset), self.hce as u8, self.bis as u8, list(&self.ncd), bw, self.hb as u8, self.loops as u8)
+    }
+}
+const FIELD_NAMES: &str = "bonds:offset:has_cluster_edges:breaks_ising_symmetry:non_const_diags:bond_weights:do_heatbath:do_loop_updates";
+
+fn snap(q: &Q) -> Fields {
     let js = serde_json::to_value(q).unwrap();
-    let ncd: Vec<u64> = js["non_const_diags"].as_array().unwrap().iter().map(|x| x.as_u64().unwrap()).collect();
-    format!(
-        "{}:{}:{}:{}:{}:{}",
-        q.get_bonds().len(),
-        rat(q.get_offset()),
-        js["has_cluster_edges"].as_bool().unwrap() as u8,
-        js["breaks_ising_symmetry"].as_bool().unwrap() as u8,
-        list(&ncd),
-        (!js["bond_weights"].is_null()) as u8
-    )
+    let bw = if js["bond_weights"].is_null() {
+        None
+    } else {
+        Some(js["bond_weights"]["max_weight_and_cumulative"].as_array().unwrap().iter()
+            .map(|r| (r[0].as_u64().unwrap(), r[1].as_f64().unwrap(), r[2].as_f64().unwrap())).collect())
+    };
+    Fields {
+        nb: q.get_bonds().len(),
+        offset: q.get_offset(),
+        hce: js["has_cluster_edges"].as_bool().unwrap(),
+        bis: js["breaks_ising_symmetry"].as_bool().unwrap(),
+        ncd: js["non_const_diags"].as_array().unwrap().iter().map(|x| x.as_u64().unwrap()).collect(),
+        bw,
+        hb: js["do_heatbath"].as_bool().unwrap(),
+        loops: js["do_loop_updates"].as_bool().unwrap(),
+    }
 }
 
 /// What the harness itself says about a matrix handed to constructor `v` for `nv` variables (no library code):
@@ -349,6 +384,8 @@ struct Class {
     edge: bool,
     sym: bool,
     const_diag: bool,
+    /// largest diagonal weight (at least 0): the bond's entry of the heat-bath table
+    max_diag: f64,
 }
 
 fn classify(v: Variant, mat: &[f64], nv: usize) -> Option<Class> {
@@ -376,9 +413,12 @@ fn classify(v: Variant, mat: &[f64], nv: usize) -> Option<Class> {
         edge: !v.is_diag() && nv == 1 && m.iter().all(|x| *x == m[0]),
         sym: (0..len).all(|i| m[i] == m[len - 1 - i]),
         const_diag: diag.iter().all(|x| *x == diag[0]),
+        max_diag: diag.iter().cloned().fold(0.0, f64::max),
     })
 }
 
+/// what the fields must be by the harness's own bookkeeping of the calls it made (the heat-bath table is judged
+/// separately: it must be absent or the table of the current interactions)
 #[derive(Clone, Default)]
 struct Want {
     nb: usize,
@@ -386,11 +426,36 @@ struct Want {
     hce: bool,
     bis: bool,
     ncd: Vec<u64>,
-    bw: bool,
+    hb: bool,
+    loops: bool,
+    /// per accepted bond: its largest diagonal weight
+    maxw: Vec<f64>,
 }
 impl Want {
-    fn tok(&self) -> String {
-        format!("{}:{}:{}:{}:{}:{}", self.nb, rat(self.offset), self.hce as u8, self.bis as u8, list(&self.ncd), self.bw as u8)
+    /// None = the fields are what they must be
+    fn judge(&self, f: &Fields) -> Option<String> {
+        let mut exp = f.clone();
+        exp.nb = self.nb;
+        exp.offset = self.offset;
+        exp.hce = self.hce;
+        exp.bis = self.bis;
+        exp.ncd = self.ncd.clone();
+        exp.hb = self.hb;
+        exp.loops = self.loops;
+        if exp != *f {
+            return Some(format!("sampler fields are {} but by the calls made so far they must be {} ({})", f.tok(), exp.tok(), FIELD_NAMES));
+        }
+        if let Some(t) = &f.bw {
+            let mut cum = 0.0;
+            let ok = t.len() == self.maxw.len() && t.iter().enumerate().all(|(b, r)| {
+                cum += self.maxw[b];
+                r.0 == b as u64 && r.1 == self.maxw[b] && r.2 == cum
+            });
+            if !ok {
+                return Some(format!("the cached heat-bath table {:?} is not the table of the current interactions (per-bond maxima {:?})", t, self.maxw));
+            }
+        }
+        None
     }
 }
 
@@ -522,21 +587,23 @@ fn call_real(q: &mut Q, v: Variant, mat: &[f64], vars: &[usize]) -> Result<Resul
     })
 }
 
-/// One sequence on one sampler. `plan`: calls to issue in this order (None = `ncalls` random calls); steps and clones
-/// are interleaved at random once the sampler has a bond.
+/// One sequence on one sampler. `plan`: calls to issue in this order (None = `ncalls` random calls); option setters
+/// (also before the first interaction), and — once the sampler has a bond — time steps and clones are interleaved.
 fn run_qmcctor(g: &mut SplitMix64, nvars: usize, loops: bool, plan: Option<Vec<Ev>>, ncalls: usize, tag: &str) {
     let mut q = Q::new_with_state(nvars, SplitMix64::new(g.next()), (0..nvars).map(|_| g.coin()).collect::<Vec<bool>>(), loops);
-    let mut want = Want::default();
+    let mut want = Want { loops, ..Want::default() };
     let mut evs: Vec<String> = vec![];
     let mut out: Vec<String> = vec![];
     let mut oracle: Result<(), String> = Ok(());
-    let (mut acc, mut rej, mut oor_calls, mut steps) = (0usize, 0usize, 0usize, 0usize);
+    let (mut acc, mut rej, mut oor_calls, mut steps, mut hb_steps, mut added_under_hb) = (0usize, 0usize, 0usize, 0usize, 0usize, 0usize);
     let mut plan_it = plan.map(|p| p.into_iter());
     let mut issued = 0usize;
     'seq: loop {
         // next event
         let ev = if !q.get_bonds().is_empty() && g.chance(1, 4) {
-            if g.chance(2, 3) { Ev::Step(g.coin()) } else { Ev::CloneQ(g.coin()) }
+            if g.chance(3, 4) { Ev::Step } else { Ev::CloneQ(g.coin()) }
+        } else if g.chance(1, 5) {
+            if g.chance(2, 3) { Ev::Hb(g.chance(2, 3)) } else { Ev::Loops(g.coin()) }
         } else {
             let next = match plan_it.as_mut() {
                 Some(it) => it.next(),
@@ -544,7 +611,11 @@ fn run_qmcctor(g: &mut SplitMix64, nvars: usize, loops: bool, plan: Option<Vec<E
             };
             match next {
                 Some(e) => { issued += 1; e }
-                None => break 'seq,
+                None => {
+                    // finish with time steps on what has been accepted
+                    if q.get_bonds().is_empty() || evs.last().map(|s| s == "step").unwrap_or(false) { break 'seq; }
+                    Ev::Step
+                }
             }
         };
         evs.push(ev_tok(&ev));
@@ -574,16 +645,17 @@ fn run_qmcctor(g: &mut SplitMix64, nvars: usize, loops: bool, plan: Option<Vec<E
                 match res {
                     Err(_) => {
                         rej += 1;
-                        out.push(format!("E:{}", after));
+                        out.push(format!("E:{}", after.tok()));
                         if why_reject.is_none() && nv >= 1 {
                             oracle = Err(format!("{}: valid interaction on variables the sampler has was rejected", ev_tok(&ev)));
                         } else if after != before {
-                            oracle = Err(format!("{}: the call returned Err but changed the sampler: {} -> {} (bonds:offset:has_cluster_edges:breaks_ising_symmetry:non_const_diags:bond_weights)", ev_tok(&ev), before, after));
+                            oracle = Err(format!("{}: the call returned Err but changed the sampler: {} -> {} ({})", ev_tok(&ev), before.tok(), after.tok(), FIELD_NAMES));
                         }
                     }
                     Ok(()) => {
                         acc += 1;
-                        out.push(format!("A:{}", after));
+                        if want.hb { added_under_hb += 1; }
+                        out.push(format!("A:{}", after.tok()));
                         if let Some(w) = why_reject {
                             oracle = Err(format!("{}: accepted although {}", ev_tok(&ev), w));
                         } else if nv == 0 {
@@ -595,9 +667,9 @@ fn run_qmcctor(g: &mut SplitMix64, nvars: usize, loops: bool, plan: Option<Vec<E
                             if v.is_off() { want.offset -= cl.min_diag; }
                             want.hce |= cl.edge;
                             want.bis |= !cl.sym;
-                            want.bw = false;
-                            if after != want.tok() {
-                                oracle = Err(format!("{}: accepted; sampler fields {} but by the interactions accepted so far they must be {} (bonds:offset:has_cluster_edges:breaks_ising_symmetry:non_const_diags:bond_weights)", ev_tok(&ev), after, want.tok()));
+                            want.maxw.push(cl.max_diag);
+                            if let Some(m) = want.judge(&after) {
+                                oracle = Err(format!("{}: accepted; {}", ev_tok(&ev), m));
                             } else if q.should_do_cluster_update() != (want.hce && !want.bis) {
                                 oracle = Err(format!("{}: should_do_cluster_update() = {}", ev_tok(&ev), q.should_do_cluster_update()));
                             }
@@ -605,9 +677,25 @@ fn run_qmcctor(g: &mut SplitMix64, nvars: usize, loops: bool, plan: Option<Vec<E
                     }
                 }
             }
-            Ev::Step(hb) => {
+            Ev::Hb(b) | Ev::Loops(b) => {
+                let r = catch(|| if matches!(ev, Ev::Hb(_)) { q.set_do_heatbath(*b) } else { q.set_do_loop_updates(*b) });
+                if let Err(p) = r {
+                    out.push("P".into());
+                    oracle = Err(format!("{} panicked: {}", ev_tok(&ev), p));
+                    break 'seq;
+                }
+                if matches!(ev, Ev::Hb(_)) { want.hb = *b } else { want.loops = *b }
+                let f = snap(&q);
+                out.push(format!("o:{}", f.tok()));
+                if let Some(m) = want.judge(&f) {
+                    oracle = Err(format!("{}: {}", ev_tok(&ev), m));
+                } else if q.should_do_heatbath() != want.hb || q.should_do_loop_update() != want.loops {
+                    oracle = Err(format!("{}: should_do_heatbath() = {}, should_do_loop_update() = {}", ev_tok(&ev), q.should_do_heatbath(), q.should_do_loop_update()));
+                }
+            }
+            Ev::Step => {
                 steps += 1;
-                q.set_do_heatbath(*hb);
+                if want.hb { hb_steps += 1; }
                 let r = catch(|| {
                     for beta in [1.0, 0.5, 2.0] {
                         for _ in 0..4 {
@@ -618,15 +706,16 @@ fn run_qmcctor(g: &mut SplitMix64, nvars: usize, loops: bool, plan: Option<Vec<E
                 match r {
                     Err(p) => {
                         out.push("P".into());
-                        oracle = Err(format!("sampling the accepted interactions panicked (loops={} heatbath={}): {}", loops, hb, p));
+                        oracle = Err(format!("sampling the accepted interactions panicked ({} bonds, heatbath={} loops={}): {}", want.nb, want.hb, want.loops, p));
                         break 'seq;
                     }
                     Ok(()) => {
-                        if *hb { want.bw = true; }
-                        let s = snap(&q);
-                        out.push(format!("s:{}", s));
-                        if s != want.tok() {
-                            oracle = Err(format!("after time steps the sampler fields are {} but must be {}", s, want.tok()));
+                        let f = snap(&q);
+                        out.push(format!("s:{}", f.tok()));
+                        if let Some(m) = want.judge(&f) {
+                            oracle = Err(format!("after time steps: {}", m));
+                        } else if want.hb && f.bw.is_none() {
+                            oracle = Err("after heat-bath time steps the sampler has no heat-bath table".to_string());
                         }
                     }
                 }
@@ -641,9 +730,9 @@ fn run_qmcctor(g: &mut SplitMix64, nvars: usize, loops: bool, plan: Option<Vec<E
                     }
                 };
                 let (a, b) = (snap(&q), snap(&c));
-                out.push(format!("k:{}", b));
+                out.push(format!("k:{}", b.tok()));
                 if a != b {
-                    oracle = Err(format!("clone differs from the original: {} vs {} (bonds:offset:has_cluster_edges:breaks_ising_symmetry:non_const_diags:bond_weights)", b, a));
+                    oracle = Err(format!("clone differs from the original: {} vs {} ({})", b.tok(), a.tok(), FIELD_NAMES));
                 } else if c.should_do_cluster_update() != q.should_do_cluster_update() {
                     oracle = Err("clone: should_do_cluster_update differs".to_string());
                 }
@@ -658,8 +747,10 @@ fn run_qmcctor(g: &mut SplitMix64, nvars: usize, loops: bool, plan: Option<Vec<E
     bump("qmcctor_calls_rejected", rej);
     bump("qmcctor_calls_with_out_of_range_variable", oor_calls);
     bump("qmcctor_step_events", steps);
+    bump("qmcctor_step_events_with_heatbath", hb_steps);
+    bump("qmcctor_calls_accepted_while_heatbath_on", added_under_hb);
     bump(&format!("qmcctor_sequences_{}", tag), 1);
-    let input = format!("qmcctor {} {}", nvars, if evs.is_empty() { "-".to_string() } else { evs.join(" ") });
+    let input = format!("qmcctor {} {} {}", nvars, loops as u8, if evs.is_empty() { "-".to_string() } else { evs.join(" ") });
     emit(acc >= 1 && rej >= 1 || tag != "random", &input, &if out.is_empty() { "-".to_string() } else { out.join(" ") }, Some(oracle));
 }
 
